@@ -547,7 +547,7 @@ func (e *Engine) checkPartReceived(r *Report, rule string, sc stageConsts) {
 	if fn := needFn(e, r, rule, "stage.(*Stage).partReceived"); fn != nil {
 		fin := "&new(stage.finalFile)"
 		ex := "call(stage.(*Stage).fromCache)(p0, " + fin + ".path)"
-		cmp := "call(stage.readLocalCompanion)(call(filepath.Join)([p0.rootDir, invoke(sts.Binned.GetName)(p1)]), " + fin + ".name)#0"
+		cmp := "call(stage.readLocalCompanion)((call(filepath.Join)([p0.rootDir, invoke(sts.Binned.GetName)(p1)]) + \".cmp\"), " + fin + ".name)#0"
 		eq := func(a, b, label string) []L {
 			return []L{C("("+a+" == "+b+")", label), C("("+b+" == "+a+")", label)}
 		}
